@@ -1,10 +1,10 @@
 """C20 — style settings resolve by precedence and never leak"""
-from corr import style_family
+from corr import style_family, stylestate_family
 from oracles import c20 as oracle
 
-GEN = ["Defaults", "StyleTemp"]
-LEAN_TARGETS = ["MagpyVerif.Props.C20", "MagpyVerif.Props.C20b"]
-PROPS = ["MagpyVerif.Props.C20", "MagpyVerif.Props.C20b"]
+GEN = ["Defaults", "StyleTemp", "StyleSchema"]
+LEAN_TARGETS = ["MagpyVerif.Props.C20", "MagpyVerif.Props.C20b", "MagpyVerif.Props.C20c"]
+PROPS = ["MagpyVerif.Props.C20", "MagpyVerif.Props.C20b", "MagpyVerif.Props.C20c"]
 
 
 def run(ctx, model_ok):
@@ -13,6 +13,11 @@ def run(ctx, model_ok):
         ctx.failing += sfails
         ctx.cov["correspondence_samples"] = st.pop("samples")
         ctx.cov["correspondence"] = st
+        # histories on the real `magpylib.defaults` and real objects' styles against the state machine Model/StyleState.lean
+        sst, ssfails = stylestate_family.run_stream(ctx, ctx.scale(150, 3000))
+        ctx.failing += ssfails
+        ctx.cov["correspondence_samples"] += sst.pop("samples")
+        ctx.cov["correspondence_sstate"] = sst
     budget = 3 if len(ctx.broken) else 1
     fails, ost = oracle.sweep(ctx, ctx.scale(12, 400) * budget)
     ctx.failing += fails
@@ -29,6 +34,15 @@ def run(ctx, model_ok):
         ctx.cov["rule"] += ("; style stream: random nested / magic-keyword dictionaries (depth <= 4, small key alphabet, both separators, None/int leaves, error shapes) through "
                             "magic_to_dict, linearize_dict, update_nested_dict (4 flag combinations, id()-sharing), MagicProperties.update and get_style's two updates on "
                             "property classes built for random schemas, compared exactly with Model/StyleNested.lean")
+    if "correspondence_sstate" in ctx.cov:
+        ss = ctx.cov["correspondence_sstate"]
+        ctx.cov["evaluations"] += ss["ops"]
+        ctx.cov["traces_validated_against_impl"] += ss["histories"]
+        ctx.cov["rule"] += ("; sstate stream: random histories (2-12 operations: update on the root or a sub-object in nested / magic / mixed notation with all flag combinations, attribute "
+                            "assignment of leaf values, None, dicts, strings, unknown names, method names, the deprecated alias, defaults.reset(), display.style.reset(), obj.style = dict / None / "
+                            "other.style, reads) on the real magpylib.defaults and on 0-3 real objects of all eight object classes; outcome (exception class) and the full as_dict() of the object "
+                            "touched compared exactly after EVERY operation with Model/StyleState.lean run on the regenerated classes / validators / DEFAULTS (Gen/StyleSchema); the real heap is "
+                            "checked for property objects shared between objects, and a final reset() against the pristine as_dict(); defaults are reset before and after every history")
     ctx.cov["not_shown"] = ["validators of the concrete style classes (colour, symbol, line-style normalisation) and CPython attribute dispatch: style oracle + mp/resolve streams only "
                             "(the model's `assign` covers plain and sub-object properties, tied by the stream, no theorem about it)",
                             "linearize_dict(magic_to_dict(kw)) is shown equal to kw as a key->value map (lookup equality), not as an ordered list: magic_to_dict groups keys by first segment",
@@ -36,10 +50,19 @@ def run(ctx, model_ok):
                             "copy independence in the CPython heap: for update_nested_dict modelled with addresses (theorem update_nested_sharing, stream compares id()), "
                             "for style objects oracle only",
                             "enumeration-valued leaves (symbols, line styles) are sampled only through their defaults",
-                            "defaults.reset() restores every default, and sequences of updates AND resets: no model, no theorem (DESIGN §6 names `reset_restores`; it does not exist) — style oracle only",
-                            "'invalid names or values are rejected': only an `example` (one unknown property name -> AttributeError in mpUpdate); no theorem that every name outside the schema is rejected, "
-                            "value validation not modelled",
-                            "'styles of different objects are independent': no theorem (update_nested_sharing is about aliasing between the result and the argument of ONE update_nested_dict call)",
+                            "refinement of a whole history to a map path -> value ('a read gives the last accepted write else the default'): proved are the single-step core "
+                            "(leaf_write_read_back_partial at any depth), reset_restores for every history, the frame between objects, and that rejected assignments change nothing; the frame for the "
+                            "OTHER leaves of the same object under update() rests on stability of the state (update() re-assigns every property), which is proved for the states at import time "
+                            "(initial_states_stable) and otherwise observed by the sstate stream, not proved",
+                            "'invalid names are rejected' holds in the code only for names that are not attributes of the class: method names (copy, update, as_dict, reset, add_trace) and "
+                            "underscore names are accepted by MagicProperties.__setattr__ (witness method_names_not_rejected; the model reports `shadow` and makes no claim afterwards)",
+                            "a rejected update() is not atomic in the code (witness rejected_update_applies_earlier_keys): 'a rejected operation leaves the state unchanged' is a theorem for attribute "
+                            "assignment only",
+                            "value validation is a regenerated TABLE (every leaf setter probed on None, a dict and a panel of 86 values closed under the setters), not a model of the validators' code; "
+                            "values outside the panel are not covered",
+                            "sharing through explicit assignment of a property OBJECT (`b.style.path = a.style.path` stores the same Path object in both styles) is not in the model (no addresses); the "
+                            "sstate stream checks the real heap for shared property objects after every history of modelled operations",
+                            "styles of COPIES (obj.copy()) in the state machine: forest/copy model (C18) and style oracle only",
                             "resolution_precedence is about the flat model Model/StyleTree.getStyle; nested_resolution_matches_flat links the nested model to it only at paths where the object's "
                             "style already has a non-dict value and no keyword/default key is a proper prefix or extension of the path"]
 
